@@ -303,7 +303,7 @@ impl Layout<'_> {
             return;
         }
         for _ in 0..self.rng.below(3) {
-            out.push(*self.rng.pick(&[' ', ' ', '\t', '\n']));
+            out.push(*self.rng.pick(&[' ', ' ', '\t', '\n', '\r']));
         }
     }
     /// mandatory whitespace
@@ -312,7 +312,7 @@ impl Layout<'_> {
             out.push(' ');
             return;
         }
-        out.push(*self.rng.pick(&[' ', '\t', '\n']));
+        out.push(*self.rng.pick(&[' ', '\t', '\n', '\r']));
         self.ows(out);
     }
     /// comments on their own lines; leaves the cursor at the start of a line
@@ -404,7 +404,7 @@ pub fn render(i: &GIface, l: &mut Layout) -> String {
         out.push('\n');
         if l.wild {
             for _ in 0..l.rng.below(3) {
-                out.push_str(*l.rng.pick(&["\n", " \n", "\t\n"]));
+                out.push_str(*l.rng.pick(&["\n", " \n", "\t\n", "\r\n", "\r\n", "\r"]));
             }
         } else {
             out.push('\n');
